@@ -83,6 +83,7 @@ def make_spec(st, idx, tier):
            dict(A, k="poll", history="fresh_client_after_crash"),
            dict(A, k="poll", history="reused_argument_objects_1", reuse_args=True),
            dict(A, k="poll", history="reused_argument_objects_2", reuse_args=True),
+           dict(A, k="poll", history="defaults_omitted", override=dict(omit_defaults=True)),
            dict(A, k="poll", history="live_feed_frame_1", inplace_feed=True),
            dict(A, k="poll", history="live_feed_frame_2", inplace_feed=True)]
     # failed requests in between: one that the library refuses (it names another office / election), one that ends in the
@@ -148,6 +149,8 @@ class Checker(C.BaseChecker):
         p = rec.profile
         hist = op.get("history")
         st.probes["history:" + str(hist)] += 1
+        if rec.extra.get("defaults_omitted"):
+            st.probes["keywords_left_at_their_default:%d" % min(6, len(rec.extra["defaults_omitted"]))] += 1
         out = []
         if rec.digest != ref.digest:
             if ref.ok != rec.ok or ref.exc_type != rec.exc_type:
